@@ -31,6 +31,10 @@ type streamParams struct {
 	FPS      int    `json:"fps"`
 	LateTop  int    `json:"latetop"` // the top temporal/spatial layer first appears at this frame (0 = from the start)
 	NoYBit   bool   `json:"noy"`     // VP8: never mark up-switch points except keyframes
+	// VP8: some packets inside a frame begin a later partition of the frame
+	// (S = 1 with a partition index other than 0, RFC 7741): they are not the
+	// start of a frame
+	Parts bool `json:"parts,omitempty"`
 	// the publisher's sequence numbers jump forward by JumpBy (more than the
 	// 8192-packet re-synchronisation window, less than 32768) at the start of
 	// frame JumpAt (encoder restart, long outage).  Outside the quantifier of
@@ -271,6 +275,8 @@ func vp8Descriptor(sp *streamParams, p *srcPkt, k int, tl0, keyidx uint8) ([]byt
 	}
 	if k == 0 {
 		b0 |= 0x10 // S, PID (partition index) 0
+	} else if sp.Parts && k%2 == 1 {
+		b0 |= 0x10 | byte(1+(k/2)%7) // S, a later partition
 	}
 	d := []byte{b0}
 	pidOff := 0
